@@ -123,8 +123,35 @@ Fixpoint table_from_pairs_loop (m : kvs) (pairs : list (list key * (key * item))
     end
   end.
 
+(* inline_table.rs: value_depth — nesting of arrays / inline tables below a value *)
+Fixpoint value_depth (v : value) : nat :=
+  match v with
+  | VScalar _ _ _ => 0
+  | VArray vals _ _ _ _ =>
+    S (fold_right (fun it acc => match it with IValue e => Nat.max (value_depth e) acc | _ => acc end) 0 vals)
+  | VInline items _ _ _ _ _ =>
+    S (fold_right (fun kv acc => match kv with (_, IValue e) => Nat.max (value_depth e) acc | _ => acc end) 0 items)
+  end.
+Definition item_depth (it : item) : nat := match it with IValue e => value_depth e | _ => 0 end.
+
+(* the loop of table_from_pairs as it is in the source: each pair first passes
+   RecursionCheck::check_depth(path.len() + 1 + value_depth(value)).
+   `table_from_pairs_loop` above is the same loop without that check (they agree whenever every
+   check passes: Proofs/Depth.v). *)
+Fixpoint table_from_pairs_loop_d (m : kvs) (pairs : list (list key * (key * item))) : cres kvs :=
+  match pairs with
+  | [] => COk m
+  | (path, (k, v)) :: tl =>
+    if check_depth (length path + 1 + item_depth v) then CErr RecursionLimit
+    else
+      match inline_insert m false path (match path with [] => true | _ => false end) k v with
+      | COk m' => table_from_pairs_loop_d m' tl
+      | e => e
+      end
+  end.
+
 Definition table_from_pairs (pairs : list (list key * (key * item))) (preamble : raw) : tm value :=
-  match table_from_pairs_loop [] pairs with
+  match table_from_pairs_loop_d [] pairs with
   | COk m => TmOk (VInline m preamble false false decor_default None)
   | CErr c => TmErr c
   | CPanic s => TmPanic s
@@ -204,7 +231,7 @@ Section Knot.
 
   (* value.rs: value — dispatch!{peek(any); ...}.with_span().map(apply_raw) *)
   Definition value_body : parser value :=
-    b <- peek any ;;
+    b <- context (peek any) ;;
     if byte_eqb b QUOTATION_MARK || byte_eqb b APOSTROPHE then pmap (fun s => scalar_value (SString s)) string_
     else if byte_eqb b ARRAY_OPEN then check_recursion array
     else if byte_eqb b INLINE_TABLE_OPEN then check_recursion inline_table
